@@ -267,6 +267,9 @@ class Component( ComponentLevel7 ):
     top._dsl.all_signals       |= late_signals
     top._dsl.all_named_objects |= late_signals
 
+    # all_named_objects holds every NamedObject, e.g. interfaces as well
+    top._dsl.all_named_objects |= obj._collect_all_single()
+
     del NamedObject._elaborate_stack
 
   def _delete_component( top, obj ):
@@ -320,6 +323,9 @@ class Component( ComponentLevel7 ):
 
       removed_connectables = removed_signals | removed_method_ports
       top._dsl.all_named_objects -= removed_connectables
+
+      # all_named_objects holds every NamedObject, e.g. interfaces as well
+      top._dsl.all_named_objects -= foo._collect_all_single()
 
       removed_consts = set()
       if isinstance( foo, Placeholder ):
